@@ -71,6 +71,41 @@ def gen(seed: int, i: int, tier: str) -> dict:
     proto = rng.choice(G.PROTOS)
     ops = []
     kind = "history"
+    if i % 6 == 5:
+        # one living gateway with its OWN persistence object: it saves at several points of a history in which nodes
+        # present themselves again, are replaced, get children and values, the context is re-entered and the process
+        # restarts on the same file.  Every image it writes must load to the registry as it was at that save.
+        ids = rng.sample([1, 2, 9, 100, 254], rng.randint(1, 3))
+        image = None
+        if rng.random() < 0.5:
+            image = {str(n): {"type": 17, "version": proto, "sketch_name": rng.choice(["", "sk"]), "sketch_version": "",
+                              "battery": rng.choice([0, 50]), "heartbeat": 0, "sleeping": False,
+                              "children": {str(c): {"type": 3, "desc": "", "values": {"2": "1"}}
+                                           for c in rng.sample([0, 1], rng.randint(0, 2))}}
+                     for n in rng.sample(ids, rng.randint(1, len(ids)))}
+        for _ in range(rng.randint(3, 14)):
+            n = rng.choice(ids)
+            r = rng.random()
+            if r < 0.2:
+                ops.append(["line", f"{n};255;0;0;{rng.choice([17, 18])};{rng.choice([proto, '1.5', '2.3.2'])}\n"])
+            elif r < 0.35:
+                ops.append(["line", f"{n};{rng.choice([0, 1])};0;0;{rng.choice([0, 3, 6])};{rng.choice(['', 'd'])}\n"])
+            elif r < 0.55:
+                ops.append(["line", f"{n};{rng.choice([0, 1])};1;0;{rng.choice([0, 2, 47])};{G.payload(rng, semi=True)}\n"])
+            elif r < 0.65:
+                t = rng.choice([0, 11, 12])
+                ops.append(["line", f"{n};255;3;0;{t};{rng.choice(['0', '55', '100']) if t == 0 else rng.choice(['sk', '1.0', ''])}\n"])
+            elif r < 0.70:
+                ops.append(["line", "255;255;3;0;3;\n"])
+            elif r < 0.88:
+                ops.append(["save"])
+            elif r < 0.94:
+                ops.append(["reenter"])
+            else:
+                ops.append(["restart"])
+        ops.append(["save"])
+        return {"cfg": {"pin": proto, "persist": True, "image": image}, "kind": "session", "ops": ops,
+                "write_limit": rng.choice([None, None, 7, 64]), "tapes": {}}
     if i % 5 == 4:
         kind = "direct"
         snap = {}
@@ -97,7 +132,72 @@ def gen(seed: int, i: int, tier: str) -> dict:
             "tapes": {"exec.lat": [rng.choice([0, 0, 1, 5]) for _ in range(rng.randint(0, 8))]}}
 
 
+def _run_session(scn) -> RunResult:
+    res = RunResult()
+    res.probes["session_own_persistence"] += 1
+    cfg = dict(scn["cfg"])
+    if cfg.get("image") is not None:
+        from vsim.pworld import native_image
+        cfg["image"] = native_image({int(k): v | {"children": {int(c): cv | {"values": {int(t): x for t, x in cv["values"].items()}}
+                                                               for c, cv in v["children"].items()}}
+                                     for k, v in cfg["image"].items()})
+    with gc_paused():
+        w = GwWorld(cfg, scn.get("tapes") or {})
+        try:
+            w.disk.write_limit = scn.get("write_limit")
+            saves = 0
+
+            def check(label):
+                want = snapshot_nodes(w.gateway)
+                img = w.disk.image(PATH)
+                if img is None:
+                    res.violate(PROP, "load-of-save", f"no-file:{label}", "")
+                    return
+                w.disk.files["/sim/check.json"] = bytearray(img)
+                loaded: dict = {}
+                t = w.loop.create_task(Persistence(loaded, "/sim/check.json").load())
+                w.loop.run_until_idle(20)
+                if not t.done() or t.exception() is not None:
+                    res.violate(PROP, "load-of-save", f"saved-file-rejected:{label}",
+                                f"{t.exception() if t.done() else 'hang'!r} image={bytes(img)[:200]!r}")
+                elif snapshot(loaded) != want:
+                    res.violate(PROP, "load-of-save", f"registry-differs:{label}",
+                                f"live registry {want} file loads to {snapshot(loaded)}"[:700])
+
+            for op in scn["ops"]:
+                res.ops += 1
+                if op[0] == "line":
+                    w.listen_step(op[1])
+                elif op[0] == "save":
+                    t = w.loop.create_task(w.gateway.persistence.save())
+                    w.loop.run_until_idle(20)
+                    if not t.done() or t.exception() is not None:
+                        res.violate(PROP, "save", "own-persistence-save-failed", repr(t.exception() if t.done() else "hang")[:200])
+                        continue
+                    saves += 1
+                    check("own-save")
+                elif op[0] == "reenter":
+                    w.reenter()
+                    check("after-reentry")  # the exit of the first context wrote the final registry
+                    res.probes["session_reentered"] += 1
+                elif op[0] == "restart":
+                    w.restart(False)
+                    res.probes["session_restarted"] += 1
+            if saves >= 2:
+                res.probes["session_saved_repeatedly"] += 1
+            res.vt = w.loop.time()
+            res.steps = w.loop.steps
+            res.faults.update(w.faults)
+            res.digest = w.elog.digest()
+            res.nontrivial_key = "C13s:" + res.digest[:24]
+        finally:
+            w.close()
+    return res
+
+
 def run(scn) -> RunResult:
+    if scn.get("kind") == "session":
+        return _run_session(scn)
     res = RunResult()
     h = hashlib.sha256()
     with gc_paused():
